@@ -353,7 +353,7 @@ def finish(acc, tier, level, rule, t0, assumptions=(), extra_cov=None, exhaustiv
         digest = hashlib.blake2b(jdump(payload["case"]).encode(), digest_size=5).hexdigest()
         path = os.path.join(OUT, "replays", f"{prop}-{check}-{kind}-{digest}.json".replace("/", "_"))
         with open(path, "w") as fh:
-            json.dump(json.loads(jdump(payload)), fh, indent=1)
+            fh.write(jdump(payload) + "\n")
         replays.append(path)
         lines.append(f"VIOLATION property={prop} replay={path}")
         lines.append(f"  check={check} kind={kind} count={acc.bucket_counts[(check, kind)]} detail={str(detail)[:300]}")
